@@ -242,9 +242,12 @@ def run_scenario(ctx, name, tree, pool):
     ctx.count("crash_points:%s=%d" % (name, total))
     ncopy = sum(1 for e in events if e[0] == "copy")
     items = [[list(k), v.hex()] for k, v in tree.items()]
-    # (ref_all: what an uninterrupted run leaves in the store = what a consumer of that store asks for)
-    jobs = [(base, name, items, n, "before", ref_all) for n in range(total)]
-    jobs += [(base, name, items, n, "partial", ref_all) for n, e in enumerate(events) if e[0] == "copy"]
+    # ref_all: what an uninterrupted run leaves in the store = what a consumer of that store asks for. (quick tier: no consumers
+    # for the variants that differ from store_to_store only in how the producer's status query is answered - they leave the
+    # same crashed stores)
+    wanted = ref_all if ctx.tier == "thorough" or name not in ("store_to_store_index", "store_to_store_fetchlike", "store_to_store_pushlike") else None
+    jobs = [(base, name, items, n, "before", wanted) for n in range(total)]
+    jobs += [(base, name, items, n, "partial", wanted) for n, e in enumerate(events) if e[0] == "copy"]
     results = list(pool.map(one_point, jobs))
     for r in results:
         case = {**case0, "crash_at_event": r["n"], "mode": r["mode"], "event": events[r["n"]][:2] if r["n"] < total else None}
